@@ -1,6 +1,7 @@
 import Model.Uuid
 import Model.UuidDecode
 import Model.UuidGen
+import Model.UuidConc
 import Driver.Util
 namespace Driver.C19
 open Util
@@ -61,6 +62,23 @@ def parseLits (s : String) : Option (List (List UInt8)) :=
 
 def quoted (bs : List UInt8) : List UInt8 := 34 :: bs ++ [34]
 
+/-- a schedule word of the `sched` op: `n<g>` `i<g>` `c<g>` `w<d>` `r<k>:<g>:<d>` -/
+def parseWord (w : String) : Option Uuid.Word :=
+  let rest := (w.drop 1).toString
+  match w.take 1 |>.toString with
+  | "n" => rest.toNat?.map .now
+  | "i" => rest.toNat?.map .inc
+  | "c" => rest.toNat?.map .call
+  | "w" => rest.toNat?.map .adv
+  | "r" => match rest.splitOn ":" with
+    | [k, g, d] => do
+      let k ← k.toNat?
+      let g ← g.toNat?
+      let d ← d.toNat?
+      pure (.rep k g d)
+    | _ => none
+  | _ => none
+
 /-- ops:
   parse <hex of the string bytes>      → hex uuid | err
   print <hex16>                        → canonical string
@@ -90,6 +108,10 @@ def quoted (bs : List UInt8) : List UInt8 := 34 :: bs ++ [34]
   mcql <kind> <content>                → ok <16 bytes> | err               (gocql.Marshal of a uuid column value)
   useq <prev16> <step>...              → ok:<dst>|err:<dst> per step, all on ONE destination
   rtdirty <prev16> <u16>               → u (every printer → every decoder, destination holding prev)
+  sched <c0> <hw> <sec> <nsec> <word>… → distinct|dup:<i>,<j> n=<returned> ctr=<counter> inflight=<k> h=<hash of all results> [g:uuid …]
+                                         a SCHEDULE of the two steps of TimeUUID() per goroutine (n<g> reading, i<g> increment, c<g> both,
+                                         w<d> wall clock +d ns, r<k>:<g>:<d> = k times w<d> c<g>) run through Model/UuidConc;
+                                         ≤ 16384 returns ⇒ distinct for every interleaving (C19_conc_unique_upto_16384); schedx = longer
   range <sa> <na> <sb> <nb> <hex16>    → incl=in|out excl=in|out: is the v1 RFC 4122 UUID selected by
                                          [MinTimeUUID(a), MaxTimeUUID(b)] / by (MaxTimeUUID(a), MinTimeUUID(b)) under Cassandra's order
                                          (C19_range_inclusive / C19_range_exclusive: exactly tick a ≤ ts ≤ tick b / tick a < ts < tick b)
@@ -226,6 +248,21 @@ def step (_ : Unit) (ws : List String) : Unit × String :=
           | none => "distinct"
         s!"{verdict} first={toHex (us.headD [])} last={toHex (us.getLastD [])} ctr={Uuid.genCtr c n}"
       | _, _, _, _, _, _, _ => "bad-op"
+  | op :: c :: hw :: sec :: ns :: words =>
+      -- sched: at most 16384 calls return ⇒ distinct (C19_conc_unique_upto_16384); schedx: longer schedules
+      -- (C19_conc_dup_iff / C19_conc_dup_descheduled say which repeat), model vs code
+      if op != "sched" && op != "schedx" then "bad-op" else
+      match natArg c, parseHex hw, intArg sec, natArg ns, words.mapM parseWord with
+      | some c, some hw, some sec, some ns, some ws =>
+        let s := Uuid.concRunFast hw (Uuid.concInit c (sec, ns)) (Uuid.expandWords sec ns ws 0)
+        let us := s.out.map (·.uuid)
+        let verdict := match Uuid.firstDup us with
+          | some (i, j) => s!"dup:{i},{j}"
+          | none => "distinct"
+        let listing := if s.out.length ≤ 24 then
+            String.join (s.out.map fun r => s!" {r.g}:{toHex r.uuid}") else ""
+        s!"{verdict} n={s.out.length} ctr={s.clockSeq} inflight={s.held.length} h={Uuid.foldHash us}{listing}"
+      | _, _, _, _, _ => "bad-op"
   | ["conc", g, n] => match natArg g, natArg n with
       | some g, some n => if g * n ≤ 16384 then "distinct" else "unconstrained"
       | _, _ => "bad-op"
